@@ -159,7 +159,7 @@ PROPS["C07"] = {
     "undecided": ["FilteringVisitor / AddingVisitor / remove_duplicates", "relative->absolute and long-import handling for all modules"],
 }
 PROPS["C08"] = {
-    "sidecars": ["c08_source.py"],
+    "sidecars": ["c08_source.py", "c14_lines.py"],
     "level": "other",
     "claim": "Proof level for the token-consumption kernel the annotating walker is built on: _Source.consume returns a range at or after the cursor that holds "
              "exactly the token text and leaves the cursor right after it (or raises MismatchedTokenError), _good_token is true exactly when the position is not "
